@@ -239,7 +239,7 @@ class Init:
                 out[i] = o
         return out
 
-    NAMES = {"init": 0, "A": 1, "B": 2, "C": 3}
+    NAMES = {"init": 0, "A": 1, "B": 2, "C": 3, "panic": 99}     # 99: an operation panicked; no model run serves that
 
     @classmethod
     def to_gallina(cls, c, o):
